@@ -875,7 +875,7 @@ Proof.
     apply He1 in Hin. lia. }
   pose proof (Hex _ _ _ _ _ Hbody S1' eq_refl Hce) as (C1 & C2 & C3 & C4). cbn in C3.
   (* the return value *)
-  bind_as H r Hret H. destruct r as [result st6].
+  bind_as H r Hret H. destruct r as [result st6]. unfold ret_value in Hret.
   assert (R : exists Y, Sep (Y ++ saved ++ X) st6 /\ tmps st6 = [] /\ length (vars st2) <= length (vars st6) /\
                 (forall b, b < length (vars st2) -> keeps st2 st6 b) /\
                 match result with Some (RSeq l t) => Y = [l] /\ t = true | _ => Y = [] end).
@@ -898,6 +898,7 @@ Proof.
   assert (Hbase : length (vars st) + (length (vars st6) - length (vars st)) = length (vars st6)) by (cbn in *; lia).
   destruct (exit_from_copy_spec _ _ _ _ _ Hexit R1 Hbase) as (F1 & F2 & F3 & F4 & F5).
   (* back in the caller *)
+  unfold call_finish in H.
   set (st8 := set_tmps st7 saved) in *.
   set (st9 := match result with Some (RSeq l _) => add_tmp l st8 | _ => st8 end) in *.
   assert (S9 : Sep X st9 /\ vars st9 = vars st7 /\ heap st9 = heap st7).
@@ -1033,3 +1034,66 @@ Proof.
     eapply keeps_trans; [apply C4; [lia|auto]|].
     destruct R3 as (_ & _ & _ & K). apply K; [lia|auto].
 Qed.
+
+(* ---------------------------------------------------------------------------------------------- *)
+(* the phases of a call, separately (used by the elision proof)                                    *)
+(* ---------------------------------------------------------------------------------------------- *)
+Definition ret_shape (result : option rv) (Y : list nat) : Prop :=
+  match result with Some (RSeq l t) => Y = [l] /\ t = true | _ => Y = [] end.
+
+Lemma ret_value_spec : forall X ce fr st2 result st6,
+  ret_value ce fr st2 = Ok (result, st6) -> Sep X st2 -> tmps st2 = [] ->
+  exists Y, Sep (Y ++ X) st6 /\ tmps st6 = [] /\ length (vars st2) <= length (vars st6) /\
+            (forall b, b < length (vars st2) -> keeps st2 st6 b) /\ ret_shape result Y.
+Proof.
+  intros X ce fr st2 result st6 Hret C1 C2. unfold ret_value in Hret. destruct fr as [re|].
+  - bind_as Hret r Hev Hret. destruct r as [v st3].
+    destruct (eval_spec _ _ _ _ _ _ Hev C1) as (S3 & E3 & R3). pose proof E3 as (Ev & Eo & Eh & Et).
+    destruct v as [z|l tmp].
+    + bind_as Hret st4 Hend Hret. inv Hret. destruct (end_stmt_spec _ _ _ S3 Hend) as (T1 & T2 & T3 & T4 & T5).
+      exists []. split; [auto|split; [auto|split; [rewrite T3, Ev; lia|split; [|exact eq_refl]]]].
+      intros b Hb'. eapply keeps_trans; [eapply ext_keeps; eauto | apply T5].
+    + bind_as Hret r Hcc Hret. destruct r as [l' st4]. bind_as Hret st5 Hend Hret. inv Hret.
+      destruct (claim_or_copy_spec _ _ _ _ _ _ S3 R3 Hcc) as (D1 & D2 & D3 & D4 & D5 & D6).
+      destruct (end_stmt_spec _ _ _ D1 Hend) as (T1 & T2 & T3 & T4 & T5).
+      exists [l']. split; [auto|split; [auto|split; [rewrite T3, D2, Ev; lia|split; [|split; auto]]]].
+      intros b Hb'. eapply keeps_trans; [eapply ext_keeps; eauto |].
+      eapply keeps_trans; [eapply heap_keeps; eauto | apply T5].
+  - inv Hret. exists []. split; [auto|split; [auto|split; [lia|split; [intros; apply keeps_refl|exact eq_refl]]]].
+Qed.
+
+(* the state in which the caller continues: its temporaries are back, the result is a temporary *)
+Definition resume (saved : list nat) (result : option rv) (st7 : state) : state :=
+  match result with Some (RSeq l _) => add_tmp l (set_tmps st7 saved) | _ => set_tmps st7 saved end.
+
+Lemma resume_spec : forall X saved result Y st7,
+  Sep (Y ++ saved ++ X) st7 -> tmps st7 = [] -> ret_shape result Y ->
+  Sep X (resume saved result st7) /\ vars (resume saved result st7) = vars st7 /\
+  heap (resume saved result st7) = heap st7 /\ out (resume saved result st7) = out st7 /\
+  (forall v, result = Some v -> rv_ok (resume saved result st7) v).
+Proof.
+  intros X saved result Y st7 F1 R2 R5. unfold resume, ret_shape in *.
+  destruct result as [[z|l t]|]; [|destruct R5 as [-> ->]|]; subst; cbn.
+  - split; [|split; [auto|split; [auto|split; [auto|]]]].
+    + apply (Sep_perm ([] ++ saved ++ X) X st7 (set_tmps st7 saved)); auto. rewrite R2. cbn. apply Permutation_refl.
+    + intros v E. inv E. exact I.
+  - split; [|split; [auto|split; [auto|split; [auto|]]]].
+    + apply (Sep_perm ([l] ++ saved ++ X) X st7 (add_tmp l (set_tmps st7 saved))); auto. rewrite R2. cbn. apply Permutation_refl.
+    + intros v E. inv E. cbn. auto.
+  - split; [|split; [auto|split; [auto|split; [auto|]]]].
+    + apply (Sep_perm ([] ++ saved ++ X) X st7 (set_tmps st7 saved)); auto. rewrite R2. cbn. apply Permutation_refl.
+    + intros v E. discriminate E.
+Qed.
+
+Lemma call_finish_resume : forall e dst saved result st7,
+  call_finish e dst saved result st7 =
+  match dst, result with
+  | None, _ => end_stmt (resume saved result st7)
+  | Some x, Some v =>
+      match lookup e x with
+      | Some a => do st10 <- store_value a v (resume saved result st7); end_stmt st10
+      | None => Er EStuck
+      end
+  | Some _, None => Er EStuck
+  end.
+Proof. intros. unfold call_finish, resume. destruct result as [[z|l t]|]; reflexivity. Qed.
